@@ -899,7 +899,7 @@ def run(chk: common.Check):
     chk.rule = (
         "time: every unary/pair case over the value grid x {US,MS,S} (exhaustive for the grid; grid includes 0, +-1, "
         "invalid(), unit-factor multiples, 2^53-1, 2^53, 2^53+1, sys.maxsize), every triple over a smaller grid, "
-        "seeded random values up to 2^70 (one third forced to equal microseconds in another unit), one constructor "
+        "seeded random values up to 2^70 (a fifth forced to equal microseconds in another unit), one constructor "
         "case (non-int times / units must be refused); non-trivial = all operands within |us| < 2^53, not all zero, "
         "at least one non-error observation. queue: hand-written corpus first, then seeded random histories (<= 60 "
         "ops + drain) of add/remove/next/peek/next_of_type/retime(+reheapify)/reheapify/len/sorted/lt over 2-14 real "
